@@ -203,7 +203,7 @@ def judge(ctx, traces, what):
   mc, files, sub = tlc.mc_wrap('Ring_Trace', dict(ServerOf='<<1>>'))
   consts = dict(NNodes=1, Replicas=1, RingSize=1, RF=1, Diverse='FALSE', MaxOps=0, SingleNodeReturns='TRUE')
   consts.update(sub)
-  cfg = tlc.cfg_text(spec='Spec', constants=consts, constraints=['Report'])
+  cfg = tlc.cfg_text(spec='TSpec', constants=consts, constraints=['Report'])
   out = {}
   CH = 40
   for k in range(0, len(traces), CH):
